@@ -970,6 +970,8 @@ class Interp:
             for c, base in self.ev(tgt.value, cfg, out):
                 if isinstance(base, ObjV):
                     c = c.hset(f"{base.oid}.{tgt.attr}", val)
+                elif isinstance(base, ClassV):
+                    c = c.hset(f"{base.name}.{tgt.attr}", val)
                 elif isinstance(base, NodeV):
                     c = self.store_back(tgt, val, c)
                 c = self.policy.on_store_attr(self, base, tgt.attr, val, c, tgt)
@@ -997,6 +999,8 @@ class Interp:
             bases = self.ev(target.value, cfg, sub)
             if len(bases) == 1 and isinstance(bases[0][1], ObjV):
                 return cfg.hset(f"{bases[0][1].oid}.{target.attr}", newv)
+            if len(bases) == 1 and isinstance(bases[0][1], ClassV):
+                return cfg.hset(f"{bases[0][1].name}.{target.attr}", newv)
             if len(bases) == 1 and isinstance(bases[0][1], NodeV):
                 b = bases[0][1]
                 nb = NodeV(b.cls, {**b.fields, target.attr: newv}, b.path)
@@ -1128,6 +1132,8 @@ class Interp:
         if isinstance(base, ClassV):
             if attr == "__name__":
                 return Const(base.name)
+            if f"{base.name}.{attr}" in cfg.heap:
+                return cfg.heap[f"{base.name}.{attr}"]
             f = self.lookup_method(base.name, attr)
             if f is not None:
                 return FuncV(f, recv=base, name=f"{base.name}.{attr}")
@@ -1762,6 +1768,8 @@ class Interp:
                 bases = self.ev(recv_attr.value, cfg, sub)
                 if bases and isinstance(bases[0][1], ObjV):
                     c = c.hset(f"{bases[0][1].oid}.{recv_attr.attr}", newv)
+                elif bases and isinstance(bases[0][1], ClassV):
+                    c = c.hset(f"{bases[0][1].name}.{recv_attr.attr}", newv)
             return [(c, ret)]
 
         if isinstance(base, ListV):
